@@ -278,6 +278,14 @@ package server
 //@   loop 1 invariant len(v) > 0 ==> (exists j int :: 0 <= j && j < i && j < len(v) && m == v[j])
 //@   loop 1 invariant forall j int :: 0 <= j && j < len(v) ==> v[j] == old(v[j])
 
+// What the leader records as a replica's progress is what that replica REPORTED having stored - the offset in its own
+// replication request - and, for the leader itself, what its own append returned. Nothing else raises it: not what has
+// been sent to the replica (a response can be lost, arrive late, or be discarded by a replica that no longer follows),
+// so that "stored by every member of the in-sync set" means stored (C04, C02)
+//@ callers (*partition).updateISRLatestOffset serves C04, C02: (*replicator).start, (*partition).messageProcessingLoop
+//@ func (*replicator).start serves C04, C02
+//@   assumes r != nil && r.partition != nil
+//@   call updateISRLatestOffset requires [C04:credited-with-what-the-replica-itself-reported] arg1 == r.replica && arg2 == req.Offset
 // a replica's reported offset only grows
 //@ func (*replica).updateLatestOffset serves C04, C02
 //@   requires r != nil
